@@ -4182,7 +4182,7 @@ def apply_delta(
                 or cp_off + cp_size > src_size
                 or cp_size > remaining
             ):
-                break
+                raise ApplyDeltaError("copy op out of bounds")
             out.append(src_buf[cp_off : cp_off + cp_size])
             remaining -= cp_size
         elif cmd != 0:
